@@ -47,8 +47,12 @@ def match_known(known, prop, leg, viol):
     return None
 
 
+LIVE = []
+
+
 class Worker:
     def __init__(self, binpath, env, outpath, errpath):
+        LIVE.append(self)
         self.out = outpath
         self.errpath = errpath
         self.errf = open(errpath, "wb")
@@ -75,22 +79,31 @@ def read_out(path):
     return starts, results
 
 
-def run_batch(binpath, scratch, prop, tier, seed0, total, legs, wall_budget, extra_env=None):
+STALL_S = 150  # a worker whose output has not grown for this long is stuck: dumped, killed and reported (exit 2)
+
+
+def run_batch(binpath, scratch, prop, tier, seed0, total, legs, wall_budget, extra_env=None, one_per_process=False):
     """Run `total` seeds over NCPU processes. Returns (results, crashes)."""
+    progress = {}  # worker -> (size of its out file, time of last growth)
     nw = min(NCPU, max(1, total))
     per = (total + nw - 1) // nw
     rdir = os.path.join(scratch, "replays")
     os.makedirs(rdir, exist_ok=True)
     results, crashes = [], []
     pending = []  # (worker index, first k, count)
-    for w in range(nw):
-        pending.append((w, w, per))
+    if one_per_process:
+        # runs that leave goroutines behind must not share a process with the next run
+        for k in range(total):
+            pending.append((k, k, 1))
+    else:
+        for w in range(nw):
+            pending.append((w, w, per))
     active = {}
     deadline = time.time() + wall_budget
     gen = 0
     timed_out = False
     while pending or active:
-        while pending and len(active) < nw:
+        while pending and len(active) < nw and time.time() < deadline:
             w, first, count = pending.pop(0)
             if count <= 0:
                 continue
@@ -110,6 +123,25 @@ def run_batch(binpath, scratch, prop, tier, seed0, total, legs, wall_budget, ext
             wk, first, count = active[w]
             rc = wk.p.poll()
             if rc is None:
+                try:
+                    sz = os.path.getsize(wk.out)
+                except OSError:
+                    sz = 0
+                if progress.get(w, (None, 0))[0] != (wk.out, sz):
+                    progress[w] = ((wk.out, sz), time.time())
+                elif time.time() - progress[w][1] > STALL_S:
+                    wk.p.send_signal(signal.SIGQUIT)
+                    try:
+                        wk.p.wait(timeout=20)
+                    except subprocess.TimeoutExpired:
+                        wk.p.kill()
+                        wk.p.wait()
+                    wk.errf.close()
+                    starts, res = read_out(wk.out)
+                    done = {r["result"]["k"] for r in res}
+                    bad = [s_ for s_ in starts if s_["start"] not in done]
+                    err = open(wk.errpath, errors="replace").read()
+                    raise Stalled("a run made no progress for %d s of wall time (%s); goroutine dump:\n%s" % (STALL_S, bad[-1] if bad else "?", err[-6000:]))
                 if time.time() > deadline:
                     wk.p.kill()
                     wk.p.wait()
@@ -140,6 +172,10 @@ def run_batch(binpath, scratch, prop, tier, seed0, total, legs, wall_budget, ext
                 timed_out = True
             break
     return [r["result"] for r in results], crashes, timed_out
+
+
+class Stalled(Exception):
+    pass
 
 
 EXTRA_ENV = {}
@@ -285,7 +321,16 @@ def main(argv=None):
     except subprocess.TimeoutExpired as e:
         log("INFRA-ERROR: timeout", e)
         return 2
+    except Stalled as e:
+        log("INFRA-ERROR: stalled:", str(e))
+        return 2
     finally:
+        for wk in list(LIVE):
+            try:
+                wk.p.kill()
+                wk.p.wait()
+            except Exception:
+                pass
         if not args.keep:
             shutil.rmtree(scratch, ignore_errors=True)
         else:
@@ -298,7 +343,7 @@ def _main(args, prop, cfg, tier, seed0, t0, scratch):
     EXTRA_ENV.update(cfg.get("env") or {})
     build.prepare(scratch, instrument=cfg.get("instrument", True))
     binpath = os.path.join(scratch, cfg["pkg"] + ".test")
-    bt = build.build_test(scratch, cfg["pkg"], binpath, use_overlay=cfg.get("overlay", True))
+    bt = build.build_test(scratch, cfg["pkg"], binpath, use_overlay=cfg.get("overlay", True), race=cfg.get("race", False))
     log("built %s in %.1fs (tree %s)" % (cfg["pkg"], bt, build.tree_fingerprint()))
     legs = args.legs.split(",") if args.legs else cfg["legs"]
 
@@ -333,7 +378,7 @@ def _main(args, prop, cfg, tier, seed0, t0, scratch):
 
     total = args.runs or cfg["runs"][tier]
     budget = cfg.get("budget", {"quick": 240, "thorough": 3600})[tier]
-    results, crashes, timed_out = run_batch(binpath, scratch, prop, tier, seed0, total, legs, budget, extra_env=cfg.get("env"))
+    results, crashes, timed_out = run_batch(binpath, scratch, prop, tier, seed0, total, legs, budget, extra_env=cfg.get("env"), one_per_process=cfg.get("one_per_process", False))
     wall_runs = time.time() - t0
     known = [] if args.ignore_known else load_known()
 
@@ -347,13 +392,23 @@ def _main(args, prop, cfg, tier, seed0, t0, scratch):
                 known_hits[k["id"]] += 1
                 continue
             groups.setdefault((r.get("leg", ""), v["class"]), []).append((r, v))
+    harness_races = []
     for c in crashes:
         v = {"class": "process-crash", "msg": first_panic_line(c["stderr"]), "detail": {"panic": first_panic_line(c["stderr"])}}
+        if "WARNING: DATA RACE" in c["stderr"]:
+            rep = c["stderr"][c["stderr"].index("WARNING: DATA RACE"):]
+            repo_frames = [l.strip() for l in rep.splitlines() if "brendoncarroll.net/p2p" in l and "/zsimrt/" not in l]
+            if not repo_frames:
+                # a race between harness goroutines only: our bug, never a violation
+                harness_races.append((c["leg"], c["seed"], rep[:3000]))
+                continue
+            funcs = sorted({l.split("(")[0].strip() for l in repo_frames if "." in l and not l.startswith("/")})[:6]
+            v = {"class": "data-race", "msg": "the race detector reports a data race involving " + ", ".join(funcs), "detail": {"functions": funcs, "report": rep[:6000]}}
         k = match_known(known, prop, c["leg"], v)
         if k is not None:
             known_hits[k["id"]] += 1
             continue
-        groups.setdefault((c["leg"], "process-crash"), []).append(({"k": c["k"], "seed": c["seed"], "leg": c["leg"], "crash": c}, v))
+        groups.setdefault((c["leg"], v["class"]), []).append(({"k": c["k"], "seed": c["seed"], "leg": c["leg"], "crash": c}, v))
 
     # ---- replay + minimise one representative per unmatched group ------------
     out_replays = []
@@ -412,6 +467,10 @@ def _main(args, prop, cfg, tier, seed0, t0, scratch):
     for kid, n in sorted(known_hits.items()):
         k = [x for x in known if x["id"] == kid][0]
         log("KNOWN-FINDING: property=%s %s (%s; hit in %d events)" % (prop, k["what"], kid, n))
+    if harness_races:
+        for leg, seed, rep in harness_races:
+            log("INFRA-ERROR: data race between harness goroutines only (leg %s, seed %s):\n%s" % (leg, seed, rep))
+        return 2
     if missing:
         for leg, cls, seed in missing:
             log("INFRA-ERROR: violation class %s (leg %s, seed %s) was reported by a run but its replay file is missing" % (cls, leg, seed))
